@@ -895,6 +895,8 @@ def replay(check, path):
         if 'spyne' in client and m['style'] == 'wrapped':
             spyne_client_case(check, w, app, Z.make_spyne_client(app, wapp, prot), plan, prot, val, m, call)
         print('call log of the last run: %r' % (captured_log(w.desc, w.classes, w.svc, plan),))
+    elif kind == 'probe':
+        probe_sub_ns(check)
     elif kind == 'wsdl':
         from spyne.server.wsgi import WsgiApplication
         w = World(rng, desc=X.unjson(rp['universe']), svc=X.unjson(rp['service']))
@@ -992,9 +994,66 @@ def oracle_response_case(check, w, app, prot, val, m, call, raw, resp, decoder):
 
 
 # ------------------------------------------------------------------ oracle: WsgiApplication + zeep + the Spyne client
+def probe_sub_ns(check):
+    """one fixed service around a member that has Attributes.sub_ns: the protocol writes and reads the element in
+    that namespace, which the published schema must then declare.  (a) the request the Spyne client writes for
+    f(K(a=7)) reaches f under validator='lxml'; (b) zeep, driven by the WSDL, gets K(a=7) back from g()."""
+    from spyne import Application, rpc, ServiceBase, Integer, ComplexModel
+    from spyne.protocol.soap import Soap11
+    from spyne.server.wsgi import WsgiApplication
+    seen = []
+
+    class SubNsK(ComplexModel):
+        __namespace__ = 'urn:t'
+        _type_info = [('a', Integer(sub_ns='urn:w'))]
+
+    class SubNsService(ServiceBase):
+        @rpc(SubNsK, _returns=Integer)
+        def f(ctx, k):
+            seen.append(None if k is None else k.a)
+            return 1
+
+        @rpc(_returns=SubNsK)
+        def g(ctx):
+            return SubNsK(a=7)
+
+    rp = {'kind': 'probe', 'name': 'sub_ns'}
+    try:
+        app = Application([SubNsService], 'urn:t', name='SubNs', in_protocol=Soap11(validator='lxml'), out_protocol=Soap11())
+        wapp = WsgiApplication(app)
+        sc = Z.make_spyne_client(app, wapp, 'soap11')
+    except Exception as e:
+        check.fail('C01|probe|sub_ns|application|%s' % type(e).__name__, 'a service around a member with sub_ns cannot be built: %r' % (e,), rp)
+        return
+    check.count(('probe', 'sub_ns'))
+    proc = sc.service.f
+    try:
+        proc(SubNsK(a=7))
+        err = None
+    except Exception as e:
+        err = e
+    if seen != [7]:
+        check.fail('C01|probe|sub_ns|request-own-wire-form|lxml',
+                   'f(K(a=7)), a: Integer(sub_ns=\'urn:w\'), validator=lxml: the request the Spyne client writes, %s, does not reach the '
+                   'function (%r; calls seen: %r): the element is written as {urn:w}a, the schema the server validates against '
+                   'declares a local element a of the urn:t schema' % ((getattr(proc, 'sent', b'') or b'').decode()[:400], err, seen), rp)
+    try:
+        zs = Z.ZeepSide(app, wapp)
+        r = zs.client.service.g()
+        got = getattr(r, 'a', None)
+    except Exception as e:
+        got = 'zeep raised %r' % (e,)
+    if got != 7:
+        check.fail('C01|probe|sub_ns|response-outside-published-schema',
+                   'g() returned K(a=7), a: Integer(sub_ns=\'urn:w\'); a WSDL-driven client (zeep) reads a=%r from %s: the published schema '
+                   'declares a as a local element of the urn:t schema, the response carries {urn:w}a' % (
+                       got, (zs.received or b'').decode()[:400] if 'zs' in dir() else ''), rp)
+
+
 def oracle_clients(check, tier):
     from spyne.server.wsgi import WsgiApplication
     rng = check.rng
+    probe_sub_ns(check)
     n_worlds = 8 if tier == 'quick' else 60
     per_method = 2 if tier == 'quick' else 4
     stats = check.extra.setdefault('oracle', {'wsgi': 0, 'zeep': 0, 'spyne_client': 0, 'zeep_clients': 0})
